@@ -6,6 +6,32 @@ BASE_OFF = ("cd /repo && env -u GIN_CONFIG_VERIF /venv/bin/python -m pytest -ra 
             "--timeout=900 --continue-on-collection-errors")
 
 CHECKS = {
+
+  'C01': ('model_checking',
+          'TLA+ spec GinCore.tla (wrapper transcription vs declarative C01_Deliver) model-checked with TLC; TLC behaviours replayed into gin',
+          'TLC checks, for every call split in every reachable (bindings, active scope) state of a signature family, that the step-by-step transcription of gin_wrapper delivers exactly the declarative per-parameter expectation; simulated behaviours over 144 signature shapes are replayed into the real gin comparing delivered arguments, *args, **kwargs, error class and the projected store / operative record / scope stack after every step.',
+          'Trusted: TLC, adapter projection (module globals _CONFIG, _OPERATIVE_CONFIG, scope manager). Bounds: scope depth <= 3, <= 5 bindings, <= 2 positionals + 1 keyword-only.',
+          'DESIGN.md section 6 C01'),
+  'C09': ('model_checking',
+          'TLA+ spec GinCore.tla scope stack (action properties C09_Compose / C09_Restore) model-checked with TLC; TLC behaviours replayed into gin',
+          'TLC enumerates all sequences of scope entries (name, a/b, list, None, invalid) and exits (normal, exception) within the stack bound; behaviours mixing scopes, bindings and calls are replayed into gin comparing the whole stack after every step.',
+          'Sequential half; the thread half is added by GinThreads when built. Trusted: TLC, adapter.',
+          'DESIGN.md section 6 C09'),
+  'C10': ('model_checking',
+          'TLA+ spec GinCore.tla (C10_Required) model-checked with TLC; TLC behaviours replayed into gin',
+          'TLC checks every placement of gin.REQUIRED (positional, keyword, **kwargs, signature default) against the declarative rule in every reachable store/scope state; behaviours are replayed into gin comparing delivered values, error class, the parsed missing-name list and whether the body ran.',
+          'Trusted: TLC, adapter (parses the RuntimeError message for the name list).',
+          'DESIGN.md section 6 C10'),
+  'C11': ('model_checking',
+          'TLA+ spec GinCore.tla (C11_Accept / C11_Atomic / C11_NeverInjected) model-checked with TLC; TLC behaviours replayed into gin through four binding API paths',
+          'TLC checks acceptance, atomicity of rejection and non-injection over allow/deny/**kwargs configurables; behaviours are replayed through tuple keys, string keys, config text and blocks, comparing the projected store after every step.',
+          'Trusted: TLC, adapter. Methods-via-class addressed in a later extension.',
+          'DESIGN.md section 6 C11'),
+  'C12': ('model_checking',
+          'TLA+ spec GinCore.tla lock machine (action properties C12_*) model-checked with TLC; TLC behaviours replayed into gin with real finalize hooks',
+          'TLC explores all histories of bind / finalize / nested unlock (normal and raising) / hook registration / register / clear within bounds; behaviours are replayed into gin with real hooks and raising unlock bodies.',
+          'Trusted: TLC, adapter. finalize() is modelled at root scope only.',
+          'DESIGN.md section 6 C12'),
   # id: (category, technique, level text, level note, design ref)
   'C08': ('model_checking',
           'TLA+ spec (SelectorMap.tla, GinCore spellings) model-checked with TLC; TLC behaviours replayed into the real code; recorded traces of the real code validated by TLC',
